@@ -465,23 +465,13 @@ func validateShard(env *Env, module string, traces []Case, tag string) ([]Bad, T
 	return res, st, nil
 }
 
-// Hash of the input part of a case (everything but id), for distinct counting.
+// Hash of an input case (everything but its id), for distinct counting and replay file names.
 func caseHash(c Case) string {
 	m := Case{}
 	for k, v := range c {
-		if k != "id" && k != "ev" && k != "text" {
+		if k != "id" {
 			m[k] = v
 		}
-	}
-	// the calls without their replies
-	if evs, ok := c["ev"].([]any); ok {
-		var ops []any
-		for _, e := range evs {
-			if em, ok := e.(map[string]any); ok {
-				ops = append(ops, []any{em["op"], em["c"], em["ls"], em["chan"]})
-			}
-		}
-		m["ops"] = ops
 	}
 	b, _ := json.Marshal(m)
 	h := sha1.Sum(b)
